@@ -200,6 +200,47 @@ theorem ctrlOn_of_agreeOff {n k : Nat} {isCtrl : Fin n → Bool} {t : Fin k → 
     h i (fun j e => by have := hdisj j; rw [e, hi] at this; exact absurd this (by simp))
   exact ⟨fun hx i hi => by rw [← key i hi]; exact hx i hi, fun hx i hi => by rw [key i hi]; exact hx i hi⟩
 
+/-! ### head / tail of a longer register -/
+
+theorem agreeOff_shift (d : Nat) (t : Fin k → Fin n) (x x' : Bits (d + n)) :
+    Bits.agreeOff x x' (fun j => Fin.natAdd d (t j)) = true ↔
+      Bits.head d x = Bits.head d x' ∧ Bits.agreeOff (Bits.tail d x) (Bits.tail d x') t = true := by
+  rw [Bits.agreeOff_iff, Bits.agreeOff_iff]
+  constructor
+  · intro h
+    refine ⟨?_, ?_⟩
+    · funext i
+      exact h _ (fun j e => by
+        have := congrArg Fin.val e; simp only [Fin.val_natAdd, Fin.val_castAdd] at this; omega)
+    · intro i hi
+      exact h _ (fun j e => hi j (Fin.natAdd_injective _ _ e))
+  · rintro ⟨h1, h2⟩ i
+    refine Fin.addCases (fun a => ?_) (fun b => ?_) i
+    · intro _; exact congrFun h1 a
+    · intro hi
+      exact h2 b (fun j e => hi j (by rw [e]))
+
+theorem bits_eq_iff_head_tail (d : Nat) (x x' : Bits (d + n)) :
+    x = x' ↔ Bits.head d x = Bits.head d x' ∧ Bits.tail d x = Bits.tail d x' := by
+  constructor
+  · rintro rfl; exact ⟨rfl, rfl⟩
+  · rintro ⟨h1, h2⟩
+    funext i
+    refine Fin.addCases (fun a => ?_) (fun b => ?_) i
+    · exact congrFun h1 a
+    · exact congrFun h2 b
+
+theorem ctrlOn_shift (d : Nat) (isCtrl : Fin n → Bool) (x : Bits (d + n)) :
+    ctrlOn (fun i => Fin.addCases (fun _ => false) isCtrl i) x = ctrlOn isCtrl (Bits.tail d x) := by
+  rw [Bool.eq_iff_iff, ctrlOn_iff, ctrlOn_iff]
+  constructor
+  · intro h i hi
+    exact h (Fin.natAdd d i) (by simpa using hi)
+  · intro h i
+    refine Fin.addCases (fun a => ?_) (fun b => ?_) i
+    · simp
+    · intro hb; exact h b (by simpa using hb)
+
 /-! ### sums -/
 
 theorem sumBits_eq_sum {M : Type} [AddCommMonoid M] (k : Nat) (f : Bits k → M) :
